@@ -307,7 +307,7 @@ func (s *c18Session) clientMsg(k int) mocrelay.ClientMsg {
 	case "CLOSE":
 		return &mocrelay.ClientCloseMsg{SubscriptionID: st.ID}
 	case "EVENT":
-		return &mocrelay.ClientEventMsg{Event: &mocrelay.Event{ID: st.ID, Pubkey: vk.FakePub(s.idx), Kind: c18KindOf(st.ID), Tags: []mocrelay.Tag{}, Content: s.tag(k)}}
+		return &mocrelay.ClientEventMsg{Event: &mocrelay.Event{ID: st.ID, Pubkey: vk.FakePub(s.idx), Kind: c18KindOf(st.ID), Tags: []mocrelay.Tag{}, Content: s.tag(k), Sig: fmt.Sprintf("%0128x", k)}}
 	}
 	return nil
 }
@@ -388,7 +388,7 @@ steps:
 		key := st.Kind + "\x00" + st.ID
 		s.byKind[key] = append(s.byKind[key], k)
 		if st.Kind == "SEVENT" {
-			ev := mocrelay.NewServerEventMsg(st.Sub, &mocrelay.Event{ID: st.ID, Pubkey: vk.FakePub(s.idx), Kind: c18KindOf(st.ID), Tags: []mocrelay.Tag{}, Content: s.tag(k)})
+			ev := mocrelay.NewServerEventMsg(st.Sub, &mocrelay.Event{ID: st.ID, Pubkey: vk.FakePub(s.idx), Kind: c18KindOf(st.ID), Tags: []mocrelay.Tag{}, Content: s.tag(k), Sig: fmt.Sprintf("%0128x", k)})
 			ok := hand(k, func(t <-chan time.Time) bool {
 				select {
 				case s.cmd <- ev:
@@ -1025,7 +1025,7 @@ func (g *c18Group) run() {
 
 func TestVerif_C18(t *testing.T) {
 	rep := vk.NewReport(t, "C18", "exploration")
-	rep.Rule = "a case is one session: a sequential REQ/CLOSE/COUNT/EVENT script (10-80 messages) plus EVENTs sent by the recording downstream handler, over alphabets of 2-6 subscription ids and 2-6 event ids, run through one shared middleware value (quota N in 1..4 or MaxInt, receive window 1..4, send window 1..4, alone or stacked in random order) together with 1-5 other sessions using the same ids, sometimes followed by a second wave of sessions on the same value; each step's outcome (seen downstream / CLOSED / OK-false / delivered / suppressed; in half of the sessions the downstream handler answers three quarters of the EVENTs that reach it with a tagged OK, accepted or refused, with and without machine-readable prefix, which the client waits for before the next message and which the models ignore) is compared with the session's own open-set and last-size-distinct-ids models; non-trivial = the session reached a quota or window boundary (a REQ that had to be refused, a repeat inside the window, or an id that had left the window); distinct = distinct (stack, per-step kind/id/outcome string)"
+	rep.Rule = "a case is one session: a sequential REQ/CLOSE/COUNT/EVENT script (10-80 messages) plus EVENTs sent by the recording downstream handler, over alphabets of 2-6 subscription ids and 2-6 event ids, run through one shared middleware value (quota N in 1..4 or MaxInt, receive window 1..4, send window 1..4, alone or stacked in random order) together with 1-5 other sessions using the same ids, sometimes followed by a second wave of sessions on the same value; each step's outcome (seen downstream / CLOSED / OK-false / delivered / suppressed; in half of the sessions the downstream handler answers three quarters of the EVENTs that reach it with a tagged OK, accepted or refused, with and without machine-readable prefix, which the client waits for before the next message and which the models ignore) is compared with the session's own open-set and last-size-distinct-ids models; plus one session that sends 400000/2000000 distinct ids through a receive window of 60000 (none may be called a duplicate); non-trivial = the session reached a quota or window boundary (a REQ that had to be refused, a repeat inside the window, or an id that had left the window); distinct = distinct (stack, per-step kind/id/outcome string)"
 	defer rep.Finish()
 
 	nGroups := vk.N(3000, 60000)
@@ -1057,6 +1057,70 @@ func TestVerif_C18(t *testing.T) {
 	if c18Stalls.Load() >= 3 {
 		rep.Inconclusive(fmt.Sprintf("C18: %d waits expired; remaining groups skipped", c18Stalls.Load()))
 	}
+	// a large window and very many distinct ids: none of them has been seen before, none may be
+	// answered as a duplicate (and every one reaches the handler)
+	{
+		const size = 60000
+		n := vk.N(400000, 2000000)
+		var reached atomic.Int64
+		down := mocrelay.HandlerFunc(func(ctx context.Context, send chan<- mocrelay.ServerMsg, recv <-chan mocrelay.ClientMsg) error {
+			for {
+				select {
+				case <-ctx.Done():
+					return ctx.Err()
+				case _, ok := <-recv:
+					if !ok {
+						return mocrelay.ErrRecvClosed
+					}
+					reached.Add(1)
+				}
+			}
+		})
+		h := mocrelay.Middleware(mocrelay.NewRecvEventUniqueFilterMiddleware(size))(down)
+		s := vk.StartSession(context.Background(), h, 0)
+		var refused []string
+		var nRefused atomic.Int64
+		var rd sync.WaitGroup
+		rd.Add(1)
+		go func() {
+			defer rd.Done()
+			for {
+				select {
+				case m := <-s.Send:
+					if okm, is := m.(*mocrelay.ServerOKMsg); is && len(refused) < 5 {
+						refused = append(refused, okm.EventID+" "+okm.Message()) // read only after rd.Wait()
+						nRefused.Add(1)
+					}
+				case <-s.Done:
+					return
+				}
+			}
+		}()
+		fed := 0
+		for i := 0; i < n; i++ {
+			id := vk.HexOf("c18 many distinct ids " + strconv.Itoa(i))
+			if !s.Put(&mocrelay.ClientEventMsg{Event: &mocrelay.Event{ID: id, Pubkey: vk.FakePub(1800), Kind: 1, Tags: []mocrelay.Tag{}, Content: "x"}}) {
+				break
+			}
+			fed++
+		}
+		// a sentinel COUNT tells that everything before it has been judged
+		s.Put(&mocrelay.ClientCountMsg{SubscriptionID: "end", ReqFilters: []*mocrelay.ReqFilter{{}}})
+		deadline := time.Now().Add(vk.WaitBound)
+		for reached.Load() < int64(fed)+1 && nRefused.Load() == 0 && time.Now().Before(deadline) {
+			time.Sleep(time.Millisecond)
+		}
+		s.Stop()
+		rd.Wait()
+		rep.Eval(fed)
+		rep.Count("distinct_ids_through_a_window_of_60000", int64(fed))
+		if len(refused) > 0 {
+			rep.Violation("recv/rejected/never-seen/large-window", fmt.Sprintf("%d distinct event ids were sent through a receive-side unique filter of size %d; ids never seen before were answered as duplicates", fed, size), map[string]any{"rejections": refused, "reached_the_handler": reached.Load()})
+		} else if reached.Load() < int64(fed)+1 {
+			rep.Inconclusive(fmt.Sprintf("C18: large-window run: %d of %d messages reached the handler within the bound", reached.Load(), fed+1))
+		}
+	}
+
 	judged := rep.Counter("sessions_judged")
 	rep.Require(judged >= int64(nGroups)*2, "too few sessions judged")
 	rep.Require(rep.Counter("sessions_nontrivial") >= judged/2, "fewer than half of the sessions reached a boundary")
